@@ -144,6 +144,8 @@ PROPS["C10"] = dict(
     assumptions=MODEL + ["allocator interposer (harness/alloc_wrap.c) sees every allocation request of the library and nothing else"],
     stages=[
         S("small-plain", "pure", [], (2500, 200), (40000, 600)),
+        # storage above the block-cache threshold (64 KiB in the small triple): such blocks bypass the cache
+        S("small-plain", "pure", ["--fam", "mul,ech,ple,trsm,inv,solve,kernel,move", "--mindim", "700"], (260, 1100), (4000, 1600)),
         S("small-asan", "pure", [], (1200, 160), (20000, 400)),
         S("host-nosse-plain", "pure", [], (600, 260), (10000, 900)),
         S("small-ts-plain-vg", "func", ["--balance", "0"], (160, 90), (2400, 260), valgrind=True, timeout=900),
